@@ -34,7 +34,7 @@ man = dict(
     engines=[
         dict(name='E1 small-scope enumerator', path='harness/h_e1.c harness/h_e1x.c harness/h_k.c harness/h_k2.c harness/h_k3.c harness/h_k4.c harness/h_rd.c harness/h_ilu.c (+ wk.c ref.c oracle.c e1common.c xs.c vf_rt.c bind.c)', serves_properties=[c for c in CHECKS if META[c]['engine'].startswith('E1')], kind_free_text='exhaustive enumeration of inputs x configurations on the real code with a dense extended-precision reference model'),
         dict(name='E2 environment/fault enumerator', path='harness/h_e2.c', serves_properties=[c for c in CHECKS if META[c]['engine'].startswith('E2')], kind_free_text='every workspace length / alignment / fill estimate / allocation-failure position'),
-        dict(name='E3 history explorer', path='harness/h_e3.c', serves_properties=[c for c in CHECKS if META[c]['engine'].startswith('E3')], kind_free_text='breadth-first search over operation histories of the real API objects, state = canonical hash'),
+        dict(name='E3 history explorer', path='harness/h_e3.c harness/h_life.c harness/h_fb.c', serves_properties=[c for c in CHECKS if META[c]['engine'].startswith('E3')], kind_free_text='breadth-first search over operation histories of the real API objects, state = canonical hash'),
         dict(name='E4 schedule explorer', path='harness/h_thr.c harness/mon_rt.c harness/mon.h', serves_properties=[c for c in CHECKS if META[c]['engine'].startswith('E4')], kind_free_text='preemption-bounded exhaustive thread interleavings with an access monitor, plus a free-running TSan pass'),
     ],
     checks=checks,
